@@ -10,7 +10,11 @@ def dist(kind, parts, precision='float64'):
     return getattr(scared, kind + 'Distinguisher')(partitions=parts, precision=precision)
 
 def run(kind, parts, X, Y):
-    d = dist(kind, parts); d.update(X, Y); r = d.compute()
+    # fed in three batches so that BOTH accumulation kernels see data (the first update always takes kernel 1, the second kernel 2 when there are <= 9 classes)
+    d = dist(kind, parts); n = len(X); cuts = [0, max(1, n // 3), max(2, 2 * n // 3), n] if n >= 3 else [0, n]
+    for a_, b_ in zip(cuts, cuts[1:]):
+        if b_ > a_: d.update(X[a_:b_], Y[a_:b_])
+    r = d.compute()
     return r, d
 
 def perm_case(rnd, kind):
